@@ -33,7 +33,7 @@ STATE_MEASURE = 'distinct (descriptor counts per message, max descriptors queued
 PROBES = ['fd-of-next-message-queued-early', 'fds-of-two-later-messages-queued',
           'fd-with-last-byte', 'fd-with-first-byte', 'plain-message-between-fd-messages',
           'index-out-of-order', 'three-descriptors', 'send-side', 'read-spans-messages', 'undecodable-message-with-descriptors',
-          'dropped-at-undecodable-message', 'prepared-message-sent-twice', 'receiver-is-client-connection', 'receiver-accepts-pipelined-handshake', 'same-descriptor-in-two-arguments', 'reply-to-a-cancelled-call-carries-descriptors']
+          'dropped-at-undecodable-message', 'prepared-message-sent-twice', 'receiver-is-client-connection', 'receiver-accepts-pipelined-handshake', 'same-descriptor-in-two-arguments', 'reply-to-a-cancelled-call-carries-descriptors', 'handler-raises']
 COMPONENTS = {
     'real': ['txdbus.protocol.BasicDBusProtocol (fileDescriptorReceived, rawDBusMessageReceived)',
              'txdbus.message.parseMessage / txdbus.marshal unmarshal_unix_fd',
@@ -119,20 +119,18 @@ def recv_side(ctx):
         _client = True
         authenticator = authentication.ClientAuthenticator
 
-        def methodCallReceived(self, m):
+        def _got(self, m):
             record.append(m)
+            if len(record) - 1 == raise_at[0]:
+                # user code in the handler fails: the connection may be dropped there, or go on -
+                # with every later message still getting its own descriptors
+                raise RuntimeError('handler fails')
 
-        def signalReceived(self, m):
-            record.append(m)
-
-        def methodReturnReceived(self, m):
-            record.append(m)
-
-        def errorReceived(self, m):
-            record.append(m)
+        methodCallReceived = signalReceived = methodReturnReceived = errorReceived = _got
 
     pipelined = False
     cancelled_serial = None
+    raise_at = [None]
     client_rx = ds.flag(0.3)
     if client_rx:
         # the receiver is a real client connection (Hello answered, no call outstanding): replies
@@ -197,6 +195,9 @@ def recv_side(ctx):
     # descriptors like any other): the receiver may drop the connection there or skip the
     # message, but must never hand its descriptors to a later message
     bad_at = ds.choose(n) if n >= 2 and ds.flag(0.2) else None
+    if bad_at is None and not client_rx and n >= 2 and ds.flag(0.15):
+        raise_at[0] = ds.choose(n)
+        sim.probe('handler-raises')
     for i in range(n):
         nfd = ds.weighted([3, 4, 2, 1.5, 0.8])
         if nfd >= 3:
@@ -279,12 +280,17 @@ def recv_side(ctx):
         err = net.deliver(sim, pipe, nbytes)
         sim.step += 1
         if err is not None:
+            if raise_at[0] is not None and len(record) == raise_at[0] + 1:
+                dropped = True
+                break
             if bad_at is not None and len(record) == bad_at and pipe.base >= msgs[bad_at][3]:
                 # the undecodable message cost the connection: nothing after it is delivered
                 dropped = True
                 break
             raise Violation('C20/exception', exc_key(err), 'exception in dataReceived: %r' % (err,))
-    if dropped:
+    if dropped and raise_at[0] is not None:
+        msgs = msgs[:raise_at[0] + 1]
+    elif dropped:
         sim.probe('dropped-at-undecodable-message')
         if len(record) != bad_at:
             raise Violation('C20/count', 'after drop', '%d messages delivered, %d preceded the '
